@@ -62,7 +62,9 @@ CONSTANTS Writers, Streamers, Keys,
           Window_CloseWithOpenWriters, \* DBClose allowed while writers are still open
           WKeys,          \* [Writers -> SUBSET Keys]  channels of each writer's frames
           Auth,           \* [Writers -> [Keys -> Nat]]
-          Subs            \* subscriptions the environment may choose (SUBSET Keys)
+          Subs,           \* subscriptions the environment may choose (SUBSET Keys)
+          CloseModes,     \* subset of {"graceful", "cancel"}
+          LateOpen        \* writers opened during the run (the others are open at Init)
 
 VARIABLES wstate,   \* [Writers -> {"init","open","closed"}]
           wnext,    \* [Writers -> 1..MaxSeq+1] next sequence number
@@ -83,7 +85,8 @@ VARIABLES wstate,   \* [Writers -> {"init","open","closed"}]
           \* ghosts
           written,  \* [Writers -> Seq([ks, e])]: frames pushed (after exclusion) and, per
                     \* streamer, how many subscriptions it had had at that moment
-          got,      \* [Streamers -> Seq(frame)]: what the consumer read
+          got,      \* [Streamers -> [Writers -> Seq([q, ks])]]: what the consumer read, per
+                    \* writer (the property orders frames of ONE writer only)
           subHist,  \* [Streamers -> Seq(SUBSET Keys)]: subscriptions in force, in order
           owed,     \* [Streamers -> SUBSET (Writers \X Nat)]: pushed while connected & open
           emptied   \* [Streamers -> SUBSET (Writers \X Nat)]: filtered to nothing
@@ -115,7 +118,7 @@ AtSelect(s) == sst[s] = "Running" /\ held[s] = NoFrame
 Draining(s) == SeparateDrain /\ sst[s] = "Disconnecting"
 
 Init ==
-  /\ wstate = [w \in Writers |-> "init"] /\ wnext = [w \in Writers |-> 1]
+  /\ wstate = [w \in Writers |-> IF w \in LateOpen THEN "init" ELSE "open"] /\ wnext = [w \in Writers |-> 1]
   /\ wq = [w \in Writers |-> <<>>]
   /\ inlet = <<>> /\ dcur = NoFrame /\ didx = 1 /\ conns = <<>> /\ drun = TRUE
   /\ sst = [s \in Streamers |-> "Init"] /\ keys = [s \in Streamers |-> {}]
@@ -123,7 +126,7 @@ Init ==
   /\ req = [s \in Streamers |-> NoReq] /\ closing = [s \in Streamers |-> "no"]
   /\ nresub = [s \in Streamers |-> 0]
   /\ dbClosed = FALSE
-  /\ written = [w \in Writers |-> <<>>] /\ got = [s \in Streamers |-> <<>>]
+  /\ written = [w \in Writers |-> <<>>] /\ got = [s \in Streamers |-> [w \in Writers |-> <<>>]]
   /\ subHist = [s \in Streamers |-> <<>>]
   /\ owed = [s \in Streamers |-> {}] /\ emptied = [s \in Streamers |-> {}]
 
@@ -150,7 +153,7 @@ WriterPush(w) ==
         /\ written' = [written EXCEPT ![w] =
                Append(@, [ks |-> ks, e |-> [s \in Streamers |-> Len(subHist[s])]])]
         /\ owed' = [s \in Streamers |->
-               IF s \in RangeOf(conns) /\ closing[s] = "no" /\ sst[s] = "Running"
+               IF s \in Ready /\ s \in RangeOf(conns) /\ closing[s] = "no" /\ sst[s] = "Running"
                THEN owed[s] \cup {<<w, f.q>>} ELSE owed[s]]
   /\ wq' = [wq EXCEPT ![w] = Tail(@)]
   /\ UNCHANGED <<wstate, wnext, dcur, didx, conns, drun, svars, dbClosed, got, subHist, emptied>>
@@ -220,7 +223,7 @@ StreamerFilterSend(s) ==
          ks == f.ks \cap keys[s]
      IN IF ks = {}
         THEN /\ out' = out
-             /\ emptied' = [emptied EXCEPT ![s] = @ \cup {<<f.w, f.q>>}]
+             /\ emptied' = [emptied EXCEPT ![s] = IF s \in Ready THEN @ \cup {<<f.w, f.q>>} ELSE @]
         ELSE /\ Len(out[s]) < OutCap
              /\ out' = [out EXCEPT ![s] = Append(@, Frame(f.w, f.q, ks))]
              /\ emptied' = emptied
@@ -262,7 +265,8 @@ DrainDone(s) ==
 
 ConsumerRecv(s) ==
   /\ out[s] # <<>>
-  /\ got' = [got EXCEPT ![s] = Append(@, Head(out[s]))]
+  /\ LET f == Head(out[s])
+     IN got' = [got EXCEPT ![s][f.w] = Append(@, [q |-> f.q, ks |-> f.ks])]
   /\ out' = [out EXCEPT ![s] = Tail(@)]
   /\ UNCHANGED <<wvars, dvars, sst, keys, held, req, closing, nresub, dbClosed, written, subHist, owed, emptied>>
 
@@ -287,7 +291,7 @@ Terminated ==
 EnvNext ==
   \/ \E w \in Writers : WriterOpen(w) \/ WriteCall(w) \/ WriterClose(w)
   \/ \E s \in Streamers : \E K \in Subs : StreamerOpen(s, K) \/ ResubCall(s, K)
-  \/ \E s \in Streamers : \E m \in {"graceful", "cancel"} : StreamerClose(s, m)
+  \/ \E s \in Streamers : \E m \in CloseModes : StreamerClose(s, m)
   \/ DBClose
 SysNext ==
   \/ \E w \in Writers : WriterPush(w)
@@ -316,25 +320,24 @@ TypeOK ==
   /\ \A i \in DOMAIN conns : sst[conns[i]] \in {"Running", "Disconnecting"}
   /\ dcur # NoFrame => didx <= Len(conns)
 
-FromWriter(seq, w) == SelectSeq(seq, LAMBDA f : f.w = w)
 \* per writer: what a streamer's consumer read is a subsequence of what the writer wrote:
 \* sequence numbers strictly increase (no duplicate, no reorder) and every one was written
 Subsequence ==
   \A s \in Streamers : \A w \in Writers :
-    LET g == FromWriter(got[s], w)
+    LET g == got[s][w]
     IN /\ \A i \in DOMAIN g : g[i].q <= Len(written[w])
        /\ \A i, j \in DOMAIN g : i < j => g[i].q < g[j].q
 
 \* only series of channels the writer was authorized on when it wrote the frame
 OnlyAuthorized ==
-  \A s \in Streamers : \A i \in DOMAIN got[s] :
-    LET g == got[s][i] IN g.q <= Len(written[g.w]) /\ g.ks \subseteq written[g.w][g.q].ks
+  \A s \in Streamers : \A w \in Writers : \A i \in DOMAIN got[s][w] :
+    LET g == got[s][w][i] IN g.q <= Len(written[w]) /\ g.ks \subseteq written[w][g.q].ks
 
 \* only channels of a subscription that was in force at or after the write; never empty
 OnlySubscribed ==
-  \A s \in Streamers : \A i \in DOMAIN got[s] :
-    LET g == got[s][i]
-        e == written[g.w][g.q].e[s]
+  \A s \in Streamers : \A w \in Writers : \A i \in DOMAIN got[s][w] :
+    LET g == got[s][w][i]
+        e == written[w][g.q].e[s]
     IN /\ g.ks # {}
        /\ g.ks \subseteq UNION {subHist[s][j] : j \in Max(e, 1)..Len(subHist[s])}
 
@@ -343,7 +346,7 @@ InPipe(s, w, q) ==
   \/ dcur.w = w /\ dcur.q = q /\ \E i \in didx..Len(conns) : conns[i] = s
   \/ held[s].w = w /\ held[s].q = q
   \/ \E i \in DOMAIN out[s] : out[s][i].w = w /\ out[s][i].q = q
-InGot(s, w, q) == \E i \in DOMAIN got[s] : got[s][i].w = w /\ got[s][i].q = q
+InGot(s, w, q) == \E i \in DOMAIN got[s][w] : got[s][w][i].q = q
 Accounted(s, w, q) == InPipe(s, w, q) \/ InGot(s, w, q) \/ <<w, q>> \in emptied[s]
 
 \* an always-ready consumer loses nothing while its streamer is connected and not closing
@@ -352,10 +355,10 @@ ReadyGetsAll ==
      \A p \in owed[s] : Accounted(s, p[1], p[2])
 \* ... and when it does get a frame it gets every subscribed, authorized series of it
 ReadyGetsWhole ==
-  \A s \in Ready : \A i \in DOMAIN got[s] :
-    LET g == got[s][i]
-        e == written[g.w][g.q].e[s]
-    IN Len(subHist[s]) = Max(e, 1) => g.ks = written[g.w][g.q].ks \cap subHist[s][Len(subHist[s])]
+  \A s \in Ready : \A w \in Writers : \A i \in DOMAIN got[s][w] :
+    LET g == got[s][w][i]
+        e == written[w][g.q].e[s]
+    IN Len(subHist[s]) = Max(e, 1) => g.ks = written[w][g.q].ks \cap subHist[s][Len(subHist[s])]
 
 \* liveness
 WritersProgress == \A w \in Writers : (wq[w] # <<>>) ~> (wq[w] = <<>>)
